@@ -481,6 +481,9 @@ def run_text(case, ctx):
         fkw["missing_data_character"] = mdc
     akw = {k: v for k, v in fkw.items() if k != "wrap_width"}
     fasta_ok = discrete_genome and not isolated and not wrong_len and L >= 1
+    if fasta_ok and L > 2**22:
+        fasta_ok = False  # a text of L characters per sample is not producible; only the tree names are checked
+        ctx.label("fasta_skipped_huge_genome")
     exp_al = None
     if fasta_ok:
         ctx.label("fasta_compared")
@@ -682,6 +685,35 @@ def run_large(case, ctx):
                         f"[{case} root={r}]")
 
 
+# ------------------------------------------------------------------ genomes longer than 2^53 / 2^63
+def enum_bigcoords(tier, seed):
+    for bps in ([0, 2**63, 2**64], [0, 2**53 + 2, 2**53 + 4, 2**54], [0, 2**62, 2**63], [0, 5, 2**63 + 2**11, 2**70]):
+        for precision in (None, 0, 3):
+            yield dict(bps=[float(b) for b in bps], precision=precision)
+
+
+def run_bigcoords(case, ctx):
+    """write_nexus on a discrete genome whose breakpoints need more than 53 / 63 bits: tree names are the exact decimal
+    renderings of the interval ends."""
+    bps = [F(b) for b in case["bps"]]
+    nodes = [[1, 0.0, -1, -1, ""], [1, 0.0, -1, -1, ""], [1, 0.0, -1, -1, ""]]
+    edges = []
+    for i in range(len(bps) - 1):
+        p = len(nodes)
+        q = p + 1
+        nodes += [[0, 1.0 + i, -1, -1, ""], [0, 10.0 + i, -1, -1, ""]]
+        a, b = (0, 1) if i % 2 == 0 else (1, 2)
+        c = 2 if i % 2 == 0 else 0
+        edges += [[bps[i], bps[i + 1], p, a, ""], [bps[i], bps[i + 1], p, b, ""], [bps[i], bps[i + 1], q, p, ""],
+                  [bps[i], bps[i + 1], q, c, ""]]
+    edges.sort(key=lambda e: (nodes[e[2]][1], e[2], e[3], e[0]))
+    spec = dict(L=bps[-1], nodes=nodes, edges=edges, sites=[], mutations=[], individuals=[], populations=[],
+                migrations=[])
+    run_text(dict(spec=spec, src="single_discrete", refmode="none", ref_arg=None, missing=None, wrap=60,
+                  precision=case["precision"], include_trees=True, include_alignments=False), ctx)
+    ctx.nt(True)
+
+
 SUBCHECKS = [
     SubCheck("C18.newick", run_newick, strategy=newick_case, quick=6000, thorough=180000,
              rule="tree sequence has >=1 edge and: a polytomy, unary node or internal sample, or a negative time, "
@@ -698,4 +730,6 @@ SUBCHECKS = [
     SubCheck("C18.large_shapes", run_large, enumerate=enum_large, quick=1, thorough=1,
              rule="chains, stars, combs and balanced trees on {1,2,9,10,11,99,100,101,999,1000,1001,1500} nodes (thorough: "
              "also 3000,5000,9999,10000,10001) x six time scales; n>=2"),
+    SubCheck("C18.big_coords", run_bigcoords, enumerate=enum_bigcoords, quick=1, thorough=1,
+             rule="nexus tree names for breakpoints beyond 2^53 and 2^63"),
 ]
